@@ -512,6 +512,25 @@ fn deterministic_generators(rec: &Recorder, out: &mut RunOutput) {
             }
         }
     }
+    // unseeded calls are fresh draws: consecutive draws of G(24, 0.5) on one thread cannot coincide
+    // (276 / 552 independent fair pairs: probability 2^-276 or less per comparison)
+    for directed in [false, true] {
+        let draws: Vec<String> = (0..4)
+            .map(|_| match guarded(|| random::fast_gnp_random_graph(24, 0.5, directed, None)) {
+                Ok(Ok(g)) => {
+                    let mut es: Vec<(i32, i32)> = g.get_all_edges().iter().map(|e| (e.u, e.v)).collect();
+                    es.sort();
+                    format!("{es:?}")
+                }
+                Ok(Err(e)) => format!("Err({:?})", e.kind),
+                Err(pi) => format!("panic {}", pi.msg),
+            })
+            .collect();
+        calls += 4;
+        if draws.windows(2).any(|w| w[0] == w[1]) {
+            rec.record(Violation::new("unseeded_draws_differ", "fast_gnp_random_graph", format!("arg:unseeded:{directed}"), format!("consecutive calls fast_gnp_random_graph(24, 0.5, {directed}, None) on one thread returned the same graph: every pair absent from the first draw can then never occur")));
+        }
+    }
     // ... and the other side of the same boundary: every p strictly inside (0,1) is valid through the PUBLIC entry
     // point, however close to an end (the dictated-draw runs above use the hook entry, which has no validation)
     let below_one = f64::from_bits(1.0f64.to_bits() - 1);
@@ -619,6 +638,7 @@ pub fn run(tier: &str, rec: &Recorder) -> RunOutput {
     out.assumptions = vec![
         "the generator's draw -> skip map is MEASURED on the real undirected generator (n = 64) by bisection over the u64 draw, and each skip's probability under a uniform draw is compared with p(1-p)^k; the directed generator is assumed to turn a draw into a skip the same way (its traces are dictated with the measured draws, so a different map shows up as a conformance failure)".into(),
         "distribution claims are decided on the chain (exact), not by sampling; p = NaN is not asserted".into(),
+        "one probabilistic clause: consecutive UNSEEDED draws of G(24, 0.5) on one thread must differ; on a correct generator two such draws coincide with probability 2^-276 (undirected) / 2^-552 (directed), which is treated as impossible".into(),
     ];
     out
 }
